@@ -1026,7 +1026,9 @@ impl<'a> Gen<'a> {
                 break;
             }
             let k = self.rng.urange(1, 5);
-            let cov = Cov::new(pick_n(self.rng, &vis, k), cov_fmt(self.rng));
+            // sometimes the coverage also lists glyphs the lookup flags make it skip
+            let src: &[u16] = if self.rng.chance(1, 3) { pool } else { &vis };
+            let cov = Cov::new(pick_n(self.rng, src, k), cov_fmt(self.rng));
             let vf = gen_vf(self.rng);
             let dev = self.rng.chance(1, 3);
             for &g in &cov.glyphs.clone() {
@@ -1594,6 +1596,18 @@ pub fn generate(rng: &mut Rng, opts: &Opts) -> Case {
         // feature assignment
         let mut main_lookups = main.clone();
         let mut second: Vec<u16> = Vec::new();
+        if opts.wide && rng.chance(1, 3) {
+            // attachments spread over two features: the result may depend on the order in which
+            // an engine walks the features (not judged then)
+            main_lookups.clear();
+            for &i in &main {
+                if rng.bool() {
+                    second.push(i);
+                } else {
+                    main_lookups.push(i);
+                }
+            }
+        }
         for &i in &additive {
             if rng.chance(1, 4) {
                 second.push(i);
